@@ -151,10 +151,12 @@ func (c *compiler) getTypeSize(ty ddpIrType) uint64 {
 }
 
 func getHashableModuleName(mod *ast.Module) string {
+	// an underscore of the path is doubled, so that a separator and an underscore give different names
+	// (a_b/c.ddp and a/b_c.ddp are two modules)
 	return "ddp_" + strings.TrimSuffix(
 		strings.ReplaceAll(
 			strings.ReplaceAll(
-				filepath.ToSlash(mod.FileName),
+				strings.ReplaceAll(filepath.ToSlash(mod.FileName), "_", "__"),
 				"/",
 				"_",
 			),
